@@ -2,12 +2,76 @@
 the judge evaluates, for every returned ranking, score <= score of every departure ranking)."""
 import os
 from common import *
+import gen
+from algos import *
 import check_C08
+from check_C04 import FINE, scheme_term_scaled
+from corankco.algorithms.bioconsert.bioconsert import BioConsert
+from corankco.algorithms.borda.borda import BordaCount
+from corankco.algorithms.copeland.copeland import CopelandMethod
+from corankco.algorithms.pickaperm.pickaperm import PickAPerm
+
+
+class Share(Suite):
+    """the statement itself, on penalties of a fine dyadic grid (tie penalty 0.5 + 2^-17 ...): local optima reached from different
+    departures then have scores ~1e-5 apart - closer than the tolerance of a careless float comparison. Judged without the model
+    of the local search: all returned rankings share one score, at most the score of every departure"""
+    name = "share"
+    imports = ["Scheme", "Rank", "KemenySpec", "Judge.JC04"]
+    judge = "judge_share"
+    ctype = "scheme * dataset * list ranking * list ranking"
+
+    def gen(self, tier, rng):
+        cases = []
+        for _ in range(120 if tier == "quick" else 1500):
+            eps = rng.choice([2.0 ** -17, 2.0 ** -16, 2.0 ** -18])
+            p = rng.choice([0.5, 1.0]) + eps
+            s = [[0.0, 1.0, p, 0.0, 1.0, p], [p, p, 0.0, p, p, 0.0]]
+            n = rng.randint(3, 6)
+            st = rng.choice(["none", "none", "copeland+pickaperm+borda"])
+            # the starters Borda / PickAPerm refuse incomplete data under these schemes (they are not multiples of the unifying one)
+            pres = 1.0 if st != "none" else rng.choice([1.0, 1.0, 0.7])
+            D = [gen.random_ranking(rng, list(range(n)), pres, rng.choice([1.0, 0.7, 0.5])) for _ in range(rng.randint(2, 6))]
+            if not any(D):
+                D[0] = [[0]]
+            cases.append({"s": s, "D": D, "one": rng.random() < 0.4, "starters": st})
+        return cases
+
+    def run(self, case):
+        import random
+        random.seed(77)
+        ds, sc = mk(case["D"], case["s"])
+        out = {"D": gen.observe(ds)}
+        if case["starters"] == "none":
+            alg = BioConsert()
+            univ = [e.value for e in ds.universe]
+            deps = [lst(r) for r in ds.unified_rankings()] + [[univ]]
+        else:
+            starts = [CopelandMethod(), PickAPerm(), BordaCount()]
+            alg = BioConsert(starting_algorithms=starts)
+            deps = [lst(a.compute_consensus_rankings(ds, sc, True).consensus_rankings[0]) for a in starts]
+        cons = alg.compute_consensus_rankings(ds, sc, case["one"])
+        out["deps"] = deps
+        out["cons"] = [lst(r) for r in cons.consensus_rankings]
+        return out
+
+    def term(self, case, out):
+        return (f"({scheme_term_scaled(case['s'], FINE)}, {dataset_term(out['D'])}, {clist([ranking_term(r) for r in out['deps']])}, "
+                f"{clist([ranking_term(r) for r in out['cons']])})")
+
+    def nontrivial(self, case, out):
+        return len(out["cons"]) >= 1 and len({e for r in out["D"] for b in r for e in b}) >= 3
+
+    def stats(self, case, out, acc):
+        acc["several_returned"] = acc.get("several_returned", 0) + int(len(out["cons"]) > 1)
+        acc["starters=" + case["starters"]] = acc.get("starters=" + case["starters"], 0) + 1
+
 
 if __name__ == "__main__":
-    main("C09", [check_C08.Bio()], gen_targets=["delta", "initscore", "biokernel"],
+    main("C09", [check_C08.Bio(), Share()], gen_targets=["delta", "initscore", "biokernel"],
          level_note="see MANIFEST",
          rule="witnesses of F3/F4, random and layered datasets up to 7 elements with 7 starting configurations (none, BioCo, Borda, Copeland, "
               "PickAPerm, two and three starters) and both values of return_at_most_one_ranking; the departure rankings are recomputed by "
               "the model (id space of the input dataset) and every returned ranking must score at most each of them; all returned rankings "
-              "share the reported score. non-trivial = >= 3 elements")
+              "share the reported score; suite share: the same statement read directly (no model of the search) under unifying schemes on a "
+              "2^-20 dyadic grid, where distinct local optima are ~1e-5 apart. non-trivial = >= 3 elements")
